@@ -28,6 +28,11 @@ import vf
 MOD = "RateLimit"
 SPEC = "MC_RateLimit.tla"
 C06_ONLY = os.environ.get("X06RL_C06_ONLY", "") not in ("", "0")
+# `c17/*` (gap C17-r3-1): predicates the C17 statement bears -- "resolver-internal sub-queries are never subjected to client ...
+# rate-limit ... policy": an internal request, or the chase the cache runs for a client's alias question through its internal
+# Queryer, is neither refused by nor charged to the cache's per-entry client limiter.  checks/c17.py runs run_c17_tier with
+# C17_ONLY (every other class is drift there); under C06_ONLY the class is drift like `rl/*`.
+C17_ONLY = False
 
 
 # ---------------------------------------------------------------------------------------------------
@@ -59,7 +64,8 @@ def cfg_consts(cfg):
         return re.findall(r'"([^"]+)"', re.search(r"^\s*%s = (\{.*\})" % name, text, re.M).group(1))
 
     return {"burst": num("Burst"), "storeCap": num("StoreCap"), "entryBurst": num("EntryBurst"), "maxAge": num("MaxAge"),
-            "clients": strs("Clients"), "forms": strs("Forms"), "atomic": re.search(r'Atomic = "(\w+)"', text).group(1)}
+            "clients": strs("Clients"), "forms": strs("Forms"), "atomic": re.search(r'Atomic = "(\w+)"', text).group(1),
+            "aliases": strs("Aliases"), "aliasTarget": re.search(r'AliasTarget = "(\w+)"', text).group(1)}
 
 
 def bkey(k):
@@ -84,7 +90,8 @@ def post_of(st):
 def res_of(st, p):
     r = fn(st["res"], p)
     return {"kind": r["kind"], "rc": r["rck"][0], "rcc": r["rck"][1], "tl": r["tl"], "chg": r["chg"], "tot": r["tot"],
-            "ech": r["ech"], "etot": r["etot"], "st": bool(r["st"])}
+            "ech": r["ech"], "etot": r["etot"], "st": bool(r["st"]),
+            "ich": r.get("ich", 0), "part": bool(r.get("part", False)), "cz": bool(r.get("cz", False))}
 
 
 def start_step(name, a, lab):
@@ -270,12 +277,13 @@ def gate_steps(beh):
 # ---------------------------------------------------------------------------------------------------
 def fold(ctx, res, prefix):
     """take_driver_result with the verdict classes applied."""
-    if C06_ONLY:
+    if C06_ONLY or C17_ONLY:
         keep = []
         for v in res.get("violations", []):
-            if v.get("key", "").startswith("rl/"):
+            k = v.get("key", "")
+            if (C17_ONLY and not k.startswith("c17/")) or (C06_ONLY and not C17_ONLY and k.startswith(("rl/", "c17/"))):
                 ctx.cov["drift"] += 1
-                ctx.log("DRIFT (rl class, X06RL_C06_ONLY): %s" % v.get("what"))
+                ctx.log("DRIFT (class %s, %s): %s" % (k.split("/")[0], "C17 only" if C17_ONLY else "X06RL_C06_ONLY", v.get("what")))
             else:
                 keep.append(v)
         res["violations"] = keep
@@ -292,7 +300,8 @@ def behaviours_for(cfg, steps_list, name):
         if not steps:
             continue
         out.append({"name": "%s-%d" % (name, k), "burst": c["burst"], "storeCap": c["storeCap"], "entryBurst": c["entryBurst"],
-                    "maxAge": c["maxAge"], "clients": c["clients"], "forms": c["forms"], "steps": steps})
+                    "maxAge": c["maxAge"], "clients": c["clients"], "forms": c["forms"], "steps": steps,
+                    "aliases": c["aliases"], "aliasTarget": c["aliasTarget"]})
     return out
 
 
@@ -332,21 +341,24 @@ def parallel(jobs, width=5):
 
 
 # ---------------------------------------------------------------------------------------------------
-NEGATIVES = [("MC_NegReplay.cfg", "OneChargePerQuestion"), ("MC_NegEcho.cfg", "ReplyCookieIsOwn"),
+NEGATIVES = [("MC_NegWireStore.cfg", "CookieRemembered"),   # the wire branch of "mismatched cookie over a stream" without its post-Next store
+             ("MC_NegReplay.cfg", "OneChargePerQuestion"), ("MC_NegEcho.cfg", "ReplyCookieIsOwn"),
              ("MC_Forms.cfg", "ClientWithinBudget"), ("MC_NegFitOutcome.cfg", "SameOutcomeAcrossEntries"),
-             ("MC_NegFitCharge.cfg", "OneChargePerQuestion"), ("MC_NegReuse.cfg", "RememberedIsOwn"),
+             ("MC_NegFitCharge.cfg", "OneChargePerQuestion"), ("MC_NegInternal.cfg", "InternalNeverLimited"),
+             ("MC_NegChase.cfg", "InternalNeverLimited"), ("MC_NegReuse.cfg", "RememberedIsOwn"),
              ("MC_NegReset.cfg", "EvictionOnlyResets"), ("MC_NegShared.cfg", "NoSharedBucket")]
 
 
 def tlc_jobs(ctx, thorough):
     """Every TLC run of the tier as thunks: state graphs, simulations (their results are driver behaviours), exhaustive
     configs, negative configs.  Returns (jobs, number of leading jobs that yield sequential behaviours)."""
-    quick = [("MC_EntryQ.cfg", 1), ("MC_Free2Q.cfg", 2), ("MC_Big.cfg", 1)]
-    full = [("MC_Entry.cfg", 2), ("MC_Free2.cfg", 3), ("MC_Budget.cfg", 4), ("MC_Cookie.cfg", 4), ("MC_Gate2.cfg", 4),
+    quick = [("MC_EntryQ.cfg", 1), ("MC_Free2Q.cfg", 2), ("MC_Big.cfg", 1), ("MC_ChaseQ.cfg", 1)]
+    full = [("MC_Entry.cfg", 2), ("MC_Chase.cfg", 2), ("MC_Free2.cfg", 3), ("MC_Budget.cfg", 4), ("MC_Cookie.cfg", 4), ("MC_Gate2.cfg", 4),
             ("MC_Free3.cfg", 3), ("MC_Live.cfg", 3), ("MC_FormsUnmapped.cfg", 1), ("MC_EdgeQ.cfg", 1), ("MC_Budget4.cfg", 4),
             ("MC_Big.cfg", 1), ("MC_Big2.cfg", 3)]
-    negatives = NEGATIVES if thorough else NEGATIVES[:5]
+    negatives = NEGATIVES if thorough else NEGATIVES[:8]
     sims = [("Sim_Budget.cfg", 40, 90), ("Sim_Cookie.cfg", 40, 90), ("Sim_Mixed.cfg", 30, 100), ("Sim_Entry.cfg", 25, 90),
+            ("Sim_Chase.cfg", 20, 90),
             ("Sim_Forms.cfg", 12, 80), ("Sim_Big.cfg", 30, 90), ("Sim_Big2.cfg", 20, 90)]
     if thorough:
         sims = [(c, n * 12, d) for c, n, d in sims]
@@ -601,6 +613,65 @@ def run_tier(ctx):
             raise vf.MachineryError("the real-time refill test did not run")
 
 
+def run_c17_tier(ctx):
+    """The part of the tier C17 stands on (gap C17-r3-1), run by checks/c17.py next to its own parts: the chase and the internal
+    request families of RateLimit.tla -- exhaustive, the two mutants that must violate InternalNeverLimited, and the edge cover of
+    the small chase graph + simulated call orders replayed on the real pipeline.  Only `c17/*` keys are verdicts here."""
+    global C17_ONLY
+    C17_ONLY = True
+    thorough = ctx.tier == "thorough"
+    ctx.assumptions += [
+        "C17/RateLimit: the cache's per-entry limiters are frozen (rate 0) between the model's ticks and read through an overlay shim; "
+        "alias questions are answered by the scripted upstream with a bare CNAME, the cache chases the target through the Queryer "
+        "autoWire gave it (the real query sub-pipeline)"]
+
+    def neg(cfg, inv):
+        r = ctx.tlc(MOD, SPEC, cfg, workers=1, timeout=300, heap="2g", must_pass=False, tag="negative", count=False)
+        if r.violated != inv:
+            raise vf.MachineryError("negative config %s did not violate %s (got %s)" % (cfg, inv, r.violated))
+
+    def graph(cfg):
+        r, steps_list, nmacro = graph_behaviours(ctx, cfg, 12)
+        ctx.cov["replay"]["c17_graph_" + cfg[3:-4]] = {"states": r.distinct, "macro_edges": nmacro, "paths": len(steps_list)}
+        return behaviours_for(cfg, steps_list, cfg[3:-4])
+
+    def sim(cfg, num, depth):
+        return behaviours_for(cfg, [call_steps(b) for b in simulate(ctx, cfg, num, depth)], cfg[4:-4])
+
+    jobs = [lambda: graph("MC_ChaseQ.cfg"),
+            lambda: sim("Sim_Chase.cfg", 25 if not thorough else 300, 90),
+            lambda: sim("Sim_Entry.cfg", 15 if not thorough else 200, 90),
+            lambda: neg("MC_NegInternal.cfg", "InternalNeverLimited"),
+            lambda: neg("MC_NegChase.cfg", "InternalNeverLimited")]
+    if thorough:
+        jobs += [lambda: ctx.tlc(MOD, SPEC, "MC_Chase.cfg", workers=2, timeout=900, heap="4g", tag="exhaustive"),
+                 lambda: ctx.tlc(MOD, SPEC, "MC_Entry.cfg", workers=2, timeout=900, heap="4g", tag="exhaustive")]
+    results = parallel(jobs, width=5)
+    behs = dedup([b for g in results[:3] for b in g])
+    # vacuity, model side: call orders in which the chase meets a cached target with an EMPTY limiter, and internal requests
+    # that hit an entry whose limiter is empty
+    ncz = sum(1 for b in behs for s in b["steps"] if s.get("exp") and s["exp"].get("cz"))
+    nint = sum(1 for b in behs for s in b["steps"] if s.get("ex") == "internal" and s.get("exp"))
+    if ncz < 5 or nint < 5 or len(behs) < 15:
+        raise vf.MachineryError("C17/RateLimit: %d behaviours, %d chases on an empty limiter, %d internal requests (vacuous)" % (len(behs), ncz, nint))
+    res = ctx.go_driver("./x06rl", "TestReplay", {"behaviours": behs, "twin": False}, name="c17_replay", timeout=900)
+    fold(ctx, res, "[RateLimit/chase] ")
+    cnt = res.get("counters", {})
+    ctx.cov["replay"]["c17_ratelimit"] = {"behaviours": len(behs), "model_chases_on_empty_limiter": ncz, "model_internal_requests": nint,
+                                          "counters": cnt, "drift_notes": res.get("drift_notes", [])[:8]}
+    if res.get("violations"):
+        return
+    if res.get("skipped"):
+        raise vf.MachineryError("C17/RateLimit: driver skipped work: %s" % res["skipped"][:3])
+    n = len(behs)
+    if cnt.get("behaviours", 0) + cnt.get("stalled", 0) != n or cnt.get("stalled", 0) > n // 10:
+        raise vf.MachineryError("C17/RateLimit: ran %d of %d behaviours (%d stalled)" % (cnt.get("behaviours", 0), n, cnt.get("stalled", 0)))
+    if cnt.get("chase_on_empty", 0) < 3 or cnt.get("alias_calls", 0) < 20:
+        raise vf.MachineryError("C17/RateLimit: the real pipeline never chased a target whose entry limiter was empty: %s" % cnt)
+    if cnt.get("drifted", 0) > n // 2:
+        raise vf.MachineryError("C17/RateLimit: %d of %d behaviours drifted from the model" % (cnt.get("drifted", 0), n))
+
+
 def run(ctx, replay_file):
     if replay_file:
         with open(replay_file) as f:
@@ -613,7 +684,8 @@ def run(ctx, replay_file):
         cfgd = rp.get("config", {})
         beh = {"name": "replayed", "burst": cfgd.get("burst", 2), "storeCap": cfgd.get("storeCap", 2),
                "entryBurst": cfgd.get("entryBurst", 0), "clients": cfgd.get("clients", ["c1", "c2", "c3"]),
-               "forms": cfgd.get("forms", ["v4"]), "steps": rp.get("steps", [])}
+               "forms": cfgd.get("forms", ["v4"]), "steps": rp.get("steps", []),
+               "aliases": cfgd.get("aliases") or [], "aliasTarget": cfgd.get("aliasTarget", "")}
         drv = rp.get("driver", "pipeline-replay")
         test = "TestGated" if "gated" in drv else "TestReplay"
         res = ctx.go_driver("./x06rl", test, {"behaviours": [beh], "twin": True}, name="replay_file", timeout=600)
